@@ -140,6 +140,9 @@ type Frame struct {
 	regionActive         bool
 	region               *Region
 	callsiteWhy          map[*Callsite]string
+	parent               *Frame            // the frame this one is inlined into
+	privAllocs           map[*ssa.Alloc]bool // local variables whose address never leaves the function (cached)
+	privDone             bool
 	regionExits          []retInfo
 	nameOverride map[string]*SVal
 }
@@ -468,8 +471,10 @@ func (f *Frame) cutLoop(li *loopInfo, phiIn map[*ssa.Phi]*SVal) {
 		ms := g.P.loopModSet(f.fn, li.body)
 		if ms.all {
 			// keep allocation monotone knowledge minimal: everything unknown
+			preAll := f.curState
 			f.curState = g.newEpochState()
 			g.note("loop %d of %s: unknown writes; all heaps havocked at the loop head", li.ordinal, f.fn.String())
+			f.keepLoopInvariantLocals(li, preAll, f.curState)
 		} else {
 			f.curState = g.clone(f.curState)
 			g.havocNames(f.curState, ms)
@@ -1635,4 +1640,135 @@ func (f *Frame) next(x *ssa.Next) *SVal {
 	g.assume(f.curReach, g.typeInv(v))
 	g.assume(f.curReach, g.typeInv(key))
 	return &SVal{T: tup, K: KTuple, Sub: []*SVal{mkBool(ok), key, v}}
+}
+
+// ------------------------------------------------------------------ non-escaping locals
+
+// privateAllocs: the Alloc instructions of f.fn whose address is only ever used to load from, store to
+// or address a field/element of the variable. No callee, goroutine or heap cell can hold such an
+// address, so a callee's "modifies everything" cannot change the variable.
+func (f *Frame) privateAllocs() map[*ssa.Alloc]bool {
+	if f.privDone {
+		return f.privAllocs
+	}
+	f.privDone = true
+	f.privAllocs = map[*ssa.Alloc]bool{}
+	if f.fn == nil {
+		return f.privAllocs
+	}
+	var addrOnly func(v ssa.Value, depth int) bool
+	addrOnly = func(v ssa.Value, depth int) bool {
+		if depth > 8 {
+			return false
+		}
+		refs := v.Referrers()
+		if refs == nil {
+			return false
+		}
+		for _, r := range *refs {
+			switch x := r.(type) {
+			case *ssa.DebugRef:
+			case *ssa.UnOp:
+				if x.Op != token.MUL {
+					return false
+				}
+			case *ssa.Store:
+				if x.Val == v {
+					return false
+				}
+			case *ssa.FieldAddr:
+				if !addrOnly(x, depth+1) {
+					return false
+				}
+			case *ssa.IndexAddr:
+				if x.X != v || !addrOnly(x, depth+1) {
+					return false
+				}
+			default:
+				return false
+			}
+		}
+		return true
+	}
+	for _, b := range f.fn.Blocks {
+		for _, ins := range b.Instrs {
+			if a, ok := ins.(*ssa.Alloc); ok && addrOnly(a, 0) {
+				f.privAllocs[a] = true
+			}
+		}
+	}
+	return f.privAllocs
+}
+
+// keepPrivateLocals copies the current values of the non-escaping local variables of f (and of the frames
+// f is inlined into) from pre into post, after post was produced by a havoc of everything.
+func (f *Frame) keepPrivateLocals(pre, post *State) {
+	g := f.g
+	for fr := f; fr != nil; fr = fr.parent {
+		for a := range fr.privateAllocs() {
+			p, ok := fr.vals[a]
+			if !ok {
+				continue
+			}
+			et := a.Type().(*types.Pointer).Elem()
+			func() {
+				defer func() {
+					if r := recover(); r != nil {
+						if _, ok := r.(unsupportedErr); !ok {
+							panic(r)
+						}
+					}
+				}()
+				g.store(post, p, et, g.load(pre, p, et))
+			}()
+		}
+	}
+}
+
+// keepLoopInvariantLocals: at a loop head whose body may write anything, the non-escaping locals that the
+// loop body itself never stores to keep their values.
+func (f *Frame) keepLoopInvariantLocals(li *loopInfo, pre, post *State) {
+	g := f.g
+	written := map[*ssa.Alloc]bool{}
+	var root func(v ssa.Value) *ssa.Alloc
+	root = func(v ssa.Value) *ssa.Alloc {
+		switch x := v.(type) {
+		case *ssa.Alloc:
+			return x
+		case *ssa.FieldAddr:
+			return root(x.X)
+		case *ssa.IndexAddr:
+			return root(x.X)
+		}
+		return nil
+	}
+	for b := range li.body {
+		for _, ins := range b.Instrs {
+			if st, ok := ins.(*ssa.Store); ok {
+				if a := root(st.Addr); a != nil {
+					written[a] = true
+				}
+			}
+		}
+	}
+	for a := range f.privateAllocs() {
+		if written[a] {
+			continue
+		}
+		p, ok := f.vals[a]
+		if !ok {
+			continue
+		}
+		et := a.Type().(*types.Pointer).Elem()
+		func() {
+			defer func() {
+				if r := recover(); r != nil {
+					if _, ok := r.(unsupportedErr); !ok {
+						panic(r)
+					}
+				}
+			}()
+			g.store(post, p, et, g.load(pre, p, et))
+		}()
+	}
 }
